@@ -7,7 +7,7 @@ From Coq Require Import List String NArith Bool.
 Import ListNotations.
 From GMQ Require Import Base.Bytes Codec.Desc Codec.Prim Codec.Value Codec.MethodCodec Codec.Header Codec.Frame Codec.Records
      Codec.SpecCheck Codec.Grammar Codec.Codec.
-From GMQ Require Import Codec.gen.MethodsGen Codec.gen.TagsGen Codec.gen.ConstGen Codec.gen.SpecGen.
+From GMQ Require Import Codec.gen.MethodsGen Codec.gen.TagsGen Codec.gen.ConstGen Codec.gen.SpecGen Codec.gen.RecordsGen.
 From GMQ Require Import Proofs.CodecPrimProofs Proofs.CodecValueProofs Proofs.CodecMethodProofs Proofs.CodecRecordProofs Proofs.CodecGenProofs.
 Open Scope N_scope.
 Open Scope list_scope.
@@ -98,10 +98,22 @@ Proof. exact gen_frame_roundtrip. Qed.
 Print Assumptions C12_frame_roundtrip.
 
 (* ---- storage records ---- *)
+(* the stored message comes back with everything that is stored, the delivery count included (F69) *)
 Theorem C12_message_record_roundtrip : forall d m, wf_message_gen d m = true ->
   exists b, encode_message d m = Some b /\ forall rest, decode_message d (b ++ rest) = Ok (m, rest).
 Proof. exact gen_message_roundtrip. Qed.
 Print Assumptions C12_message_record_roundtrip.
+
+(* ... which is about the code that exists only if Marshal writes and Unmarshal reads the trailer *)
+Theorem C12_generated_message_trailer : message_trailer_written = true /\ message_trailer_read = true.
+Proof. exact gen_message_trailer. Qed.
+Print Assumptions C12_generated_message_trailer.
+
+(* backward compatibility: a record written before the trailer existed decodes to the same message with count 0 *)
+Theorem C12_message_record_legacy : forall d m, wf_message_legacy d m = true ->
+  exists b, encode_message_legacy d m = Some b /\ forall rest, blen rest < 4 -> decode_message d (b ++ rest) = Ok (m, rest).
+Proof. exact gen_message_legacy. Qed.
+Print Assumptions C12_message_record_legacy.
 
 Theorem C12_queue_record_roundtrip : forall q rest, wf_queue q = true -> dec_queue (enc_queue q ++ rest) = Ok (q, rest).
 Proof. exact queue_roundtrip. Qed.
@@ -146,8 +158,10 @@ Example C12_example_header_and_message :
               h_props := [Some (MStr [116]); None; Some (MTab [([107], VStr TString [118])]); Some (MNum 2);
                           None; None; None; None; None; Some (MNum 1700000000); None; None; None; None] |} in
   let m := {| msg_id := 7; msg_header := h; msg_exchange := [101]; msg_rk := [114; 107];
-              msg_body := [{| f_type := 3; f_channel := 1; f_payload := [1; 2] |}; {| f_type := 3; f_channel := 1; f_payload := [3] |}] |} in
-  wf_header_gen DRabbit h = true /\ wf_message_gen DRabbit m = true /\ wf_message_gen D091 m = true.
+              msg_body := [{| f_type := 3; f_channel := 1; f_payload := [1; 2] |}; {| f_type := 3; f_channel := 1; f_payload := [3] |}];
+              msg_count := 2 |} in
+  wf_header_gen DRabbit h = true /\ wf_message_gen DRabbit m = true /\ wf_message_gen D091 m = true /\
+  wf_message_legacy DRabbit (with_count m 0) = true.
 Proof. vm_compute. repeat split; reflexivity. Qed.
 
 Example C12_example_method :
